@@ -2,6 +2,8 @@ import HabuVerif.Core.Toy
 import HabuVerif.Drv.IniDrv
 import HabuVerif.Drv.InputsDrv
 import HabuVerif.Drv.RealDrv
+import HabuVerif.Drv.CliDrv
+import HabuVerif.Drv.F64Drv
 /-!
 Line-protocol driver: the correspondence harness pipes operations in, the model's answers come
 out, one canonical line each.  Imports model files only (no Mathlib), so it can be compiled.
@@ -154,6 +156,8 @@ partial def loop (h : IO.FS.Stream) (out : IO.FS.Stream) (m : Mode) : IO Unit :=
     -- stateless streams: `<stream> <op...>`
     if l.startsWith "ini " then out.putStrLn (IniDrv.step (l.drop 4).toString)
     else if l.startsWith "inp " then out.putStrLn (InputsDrv.step (l.drop 4).toString)
+    else if l.startsWith "cli " then out.putStrLn (CliDrv.step (l.drop 4).toString)
+    else if l.startsWith "f64 " then out.putStrLn (F64Drv.step (l.drop 4).toString)
     else
       match HabuVerif.RealDrv.begin? l with
       | some c => return (← loop h out (.real c))
